@@ -84,6 +84,18 @@ def project(obj):
         want_z = [complex(Z[i]) for i in range(n) if bool(mask[i]) == flag]
         if fv != want_f or zv != want_z or obj.get_num_points(masked=flag) != len(want_f):
             raise OffGrid(f"view masked={flag} is not the {flag}-part of the full view: {fv} {zv}")
+    # derived views (Nyquist / Bode / data frame) are functions of the unmasked view
+    fz = [float(f[i]) for i in range(n) if not mask[i]]
+    zz = np.array([complex(Z[i]) for i in range(n) if not mask[i]], dtype=complex)
+    re_, im_ = obj.get_nyquist_data()
+    bf, bm, bp = obj.get_bode_data()
+    if len(zz) and not (np.array_equal(re_, zz.real) and np.array_equal(im_, -zz.imag) and [float(x) for x in bf] == fz
+                        and np.array_equal(bm, abs(zz)) and np.array_equal(bp, -np.angle(zz, deg=True))
+                        and np.array_equal(obj.get_magnitudes(), abs(zz)) and np.array_equal(obj.get_phases(), np.angle(zz, deg=True))):
+        raise OffGrid("get_nyquist_data / get_bode_data / get_magnitudes / get_phases disagree with the unmasked view")
+    df = obj.to_dataframe(negative_imaginary=True, negative_phase=True)
+    if list(df.iloc[:, 0]) != fz or not np.array_equal(df.iloc[:, 2].to_numpy(), -zz.imag) or not np.array_equal(df.iloc[:, 1].to_numpy(), zz.real):
+        raise OffGrid("to_dataframe() disagrees with the unmasked view")
     d = obj.to_dict()
     if [float(x) for x in d["frequencies"]] != [float(x) for x in f] or \
             [complex(a, b) for a, b in zip(d["real_impedances"], d["imaginary_impedances"])] != [complex(x) for x in Z] or \
